@@ -1,5 +1,6 @@
 pub mod conc;
 pub mod driver;
+pub mod report;
 pub mod sym;
 pub use conc::ConcLab;
 pub use driver::*;
